@@ -1,7 +1,9 @@
 ------------------------------ MODULE RecordFile_MC ------------------------------
 EXTENDS RecordFile, Json, IOUtils
-LenSet == {4, 8, 12}
-MCLens == UNION {[1..n -> LenSet] : n \in 1..3}
+Quick == IOEnv.PNC_SCALE = "quick"
+LenSet == IF Quick THEN {4, 12} ELSE {4, 8, 12}
+MCLens == UNION {[1..n -> LenSet] : n \in 1..(IF Quick THEN 3 ELSE 4)}
+MCDev == IOEnv.PNC_DEV
 MCMax == atoi(IOEnv.PNC_MAXOPS)
 EmitConstraint == IF IOEnv.PNC_EMIT = "1" /\ Len(ops) = MCMax
                   THEN PrintT(ToJson([lens |-> lens, ops |-> ops])) ELSE TRUE
